@@ -136,6 +136,27 @@ class Driver(object):
         return self.batch([args])[0]
 
 
+class KnownList(list):
+    """The known findings of one property, as listed in known_findings.json.  A check never adds to
+    that list at run time: `append` of a key the file does not list is refused (and remembered in
+    `refused`), so such a failure is reported as a VIOLATION.  While a check is being developed the
+    untracked marker file /verif/.dev-pending-ok makes `append` work (harness-local PENDING_FINDINGS);
+    it is never present in a committed tree."""
+
+    def __init__(self, items):
+        list.__init__(self, items)
+        self.refused = []
+        self.dev = os.path.exists(os.path.join(VERIF, '.dev-pending-ok'))
+
+    def append(self, entry):
+        if any(e.get('key') == entry.get('key') and e.get('status', 'known') == 'known' for e in self):
+            return
+        if self.dev:
+            list.append(self, entry)
+        else:
+            self.refused.append(entry.get('key'))
+
+
 class Ctx(object):
     def __init__(self, prop, tier, seed, replay=None):
         self.prop = prop
@@ -153,7 +174,7 @@ class Ctx(object):
         self.proof = None          # dict from build_and_audit
         self.broken = []           # names of theorems / correspondences that no longer check
         self._driver = None
-        self.known = load_known_findings().get(prop, [])
+        self.known = KnownList(load_known_findings().get(prop, []))
 
     # ---- infrastructure -------------------------------------------------
     @property
